@@ -212,6 +212,8 @@ def feature_signature(stmts):
             feats.add(n[1])
         elif k == "assign":
             feats.add(n[1] if n[1] != "=" else "assign")
+            if n[3] and n[3][0] == "assign":
+                feats.add("chain")
         elif k == "cast":
             feats.add(f"cast{'s' if n[1][0] else 'u'}{n[1][1]}")
         elif k == "decl":
